@@ -1,7 +1,13 @@
 (* Server-level model runner: `<u|t> <edns> <catalog> <keys> <requesthex>`; prints the
    abstract response in the field syntax of harness/src/srvcase.rs::render (without raw=).
-   Query answering for Loaded zones and HMAC verification are parameters of the model; this
-   runner plugs in stubs that record that they were reached and prints `?` for what they decide. *)
+   Query answering for Loaded zones and HMAC verification are parameters of the model.
+   Query answering is plugged in at the OCTET level: when the server model reaches the answering
+   logic for a Loaded zone (and no TSIG is involved) the complete response is produced by
+   QueryW.respond_w — the C05 query model (Model/Query.v) driving the Writer model of C12
+   (Model/MsgWriter.v) on the tree zone built from the catalog entry's records, with the id, RD,
+   question, EDNS size and limit in effect that the server model computed — and rendered from its
+   octets with the message decoder of Spec/MsgWriterS.v, both transports, truncation included.
+   With TSIG (HMAC is a parameter) the runner prints `?` for what answering decides, as before. *)
 open Qvutil
 
 let n = int_of_n
@@ -9,6 +15,72 @@ let b x = if x then 1 else 0
 
 let labels_of_wirehex h =
   Server.lower_labels (Server.wire_labels (unhex h))
+
+(* the zones of the Loaded entries, by index in the catalog description (Ttl::from applied as in
+   srvcase::build_catalog) *)
+let parse_zones spec : ZoneTree.zone option array =
+  if spec = "-" then [||] else
+  Array.of_list (Stdlib.List.map (fun e ->
+    match String.split_on_char ',' e with
+    | cl :: nm :: st :: rest when st <> "N" && st <> "F" ->
+      let cls = n_of_int (int_of_string cl) in
+      let apex = Server.wire_labels (unhex nm) in
+      let recs = (match rest with
+        | r :: _ when r <> "" ->
+          Stdlib.List.map (fun s ->
+            match String.split_on_char '/' s with
+            | [o; ty; ttl; rd] ->
+              let t = int_of_string ttl in
+              { ZoneTree.r_owner = Server.wire_labels (unhex o); r_type = n_of_int (int_of_string ty); r_class = cls;
+                r_ttl = n_of_int (if t > 0x7fffffff then 0 else t); r_rdata = unhex rd }
+            | _ -> failwith "bad record") (String.split_on_char '+' r)
+        | _ -> []) in
+      ZoneTree.zone_build ZoneTree.req_simple (ZoneTree.zone_new apex cls false) recs
+    | _ -> None) (String.split_on_char ';' spec))
+
+let wire_of_labels (ls : BinNums.coq_N list list) =
+  Stdlib.List.concat (Stdlib.List.map (fun l -> n_of_int (Stdlib.List.length l) :: l) ls) @ [n_of_int 0]
+
+(* uncompressed size of the response the idealised writer would produce: decides the size of the
+   model's buffer (a 65535-octet list per write is slow; below 4000 octets a 4096-octet buffer and
+   the real 65535-octet one behave identically, nothing can fail for lack of space) *)
+let estimate z qname qtype =
+  match Query.answer_rec z qname qtype true with
+  | None -> 70000
+  | Some r ->
+    let rr (x : Query.qrr) = Stdlib.List.length (wire_of_labels x.Query.q_owner) + 10 + Stdlib.List.length x.Query.q_rdata in
+    let sum l = Stdlib.List.fold_left (fun a x -> a + rr x) 0 l in
+    12 + Stdlib.List.length (wire_of_labels qname) + 4 + 11 + sum r.Query.rc_an + sum r.Query.rc_ns + sum r.Query.rc_ar
+
+let zero_buf = Hashtbl.create 2
+let buffer k = match Hashtbl.find_opt zero_buf k with
+  | Some b -> b
+  | None -> let b = Stdlib.List.init k (fun _ -> n_of_int 0) in Hashtbl.add zero_buf k b; b
+
+let rec take k l = if k <= 0 then [] else match l with [] -> [] | x :: r -> x :: take (k - 1) r
+
+(* canonical rendering of response octets (same fields as harness/src/srvcase.rs::render) *)
+let render_octets (b : BinNums.coq_N list) =
+  match MsgWriterS.decode_msg b with
+  | None -> Printf.sprintf "resp undecodable-by-model raw=%s" (hex b)
+  | Some m ->
+    let f2 = int_of_n m.MsgWriterS.m_flags2 and f3 = int_of_n m.MsgWriterS.m_flags3 in
+    let part = function
+      | MsgWriterS.PName (ls, _, _) -> wire_of_labels ls
+      | MsgWriterS.PRaw r -> r in
+    let rr (d : MsgWriterS.drr) =
+      Printf.sprintf "%s/%d/%d/%d/%s" (hex (wire_of_labels d.MsgWriterS.dr_owner)) (int_of_n d.MsgWriterS.dr_type)
+        (int_of_n d.MsgWriterS.dr_class) (int_of_n d.MsgWriterS.dr_ttl)
+        (hex (Stdlib.List.concat (Stdlib.List.map part d.MsgWriterS.dr_parts))) in
+    let q (d : MsgWriterS.dq) =
+      Printf.sprintf "%s/%d/%d" (hex (wire_of_labels d.MsgWriterS.dq_name)) (int_of_n d.MsgWriterS.dq_type) (int_of_n d.MsgWriterS.dq_class) in
+    let sec l = String.concat "," (Stdlib.List.map rr l) in
+    Printf.sprintf "resp len=%d id=%d qr=%d aa=%d tc=%d rd=%d ra=%d z=%d op=%d rc=%d qd=%d an=%d ns=%d ar=%d Q=[%s] AN=[%s] NS=[%s] AR=[%s] raw=%s"
+      (Stdlib.List.length b) (int_of_n m.MsgWriterS.m_id) ((f2 lsr 7) land 1) ((f2 lsr 2) land 1) ((f2 lsr 1) land 1) (f2 land 1)
+      ((f3 lsr 7) land 1) ((f3 lsr 4) land 7) ((f2 lsr 3) land 15) (f3 land 15)
+      (Stdlib.List.length m.MsgWriterS.m_qs) (Stdlib.List.length m.MsgWriterS.m_an) (Stdlib.List.length m.MsgWriterS.m_ns)
+      (Stdlib.List.length m.MsgWriterS.m_ar)
+      (String.concat "," (Stdlib.List.map q m.MsgWriterS.m_qs)) (sec m.MsgWriterS.m_an) (sec m.MsgWriterS.m_ns) (sec m.MsgWriterS.m_ar) (hex b)
 
 let parse_catalog spec =
   if spec = "-" then [] else
@@ -51,8 +123,8 @@ let () = run_lines (fun f ->
   let dup s = s ^ " | " ^ s in      (* the model line doubles as the property oracle (see Props/C0x.v) *)
   dup (match f with
   | [tr; edns; cat; keys; req] ->
-    let answered = ref false and verified = ref false in
-    let answer _ _ _ _ = answered := true; Server.empty_body in
+    let answered = ref false and verified = ref false and reached = ref None in
+    let answer zid (q : Reader.question) _ _ = answered := true; reached := Some (int_of_nat zid, q); Server.empty_body in
     let verify _ _ _ _ _ _ = verified := true; Server.VOk in
     let cfg = { Server.c_transport = (if tr = "t" then Server.Tcp else Server.Udp);
                 Server.c_edns_size = n_of_int (int_of_string edns);
@@ -63,6 +135,20 @@ let () = run_lines (fun f ->
      | Res.Panic -> "panic"
      | Res.Err _ -> "model-error"
      | Res.Ok None -> "none"
+     | Res.Ok (Some w) when !reached <> None && w.Server.w_tsig = None ->
+       let (zid, q) = (match !reached with Some x -> x | None -> assert false) in
+       let zones = parse_zones cat in
+       (match (if zid < Array.length zones then zones.(zid) else None) with
+        | None -> "panic"
+        | Some z ->
+          let qname = Query.labels_of q.Reader.q_name in
+          let tcp = (tr = "t") in
+          let est = estimate z qname q.Reader.q_type in
+          let buf = buffer (if est + 96 <= 4096 then 4096 else 65535) in
+          (match QueryW.respond_w Query.neg_ttl buf tcp w.Server.w_id w.Server.w_rd qname q.Reader.q_type q.Reader.q_class
+                   (match w.Server.w_edns with Some (sz, _) -> Some sz | None -> None) w.Server.w_limit z with
+           | None -> "panic"
+           | Some (len, b) -> render_octets (take (int_of_nat len) b)))
      | Res.Ok (Some w) ->
        let unk = !answered in
        let opt = match w.Server.w_edns with
